@@ -19,13 +19,85 @@ correspondence-only: that the lifted table covers every path of the real code (t
 functions intra-procedurally), and pandas' reindexing semantics themselves (op `cont.place` vs real pandas).
 
 Helper lemmas: `Lemmas/Perm.lean`, `Lemmas/PermAggregate.lean`, `Lemmas/PermRename.lean`,
-`Lemmas/PermMoments.lean`; definitions: `Model/Perm.lean`.
+`Lemmas/PermMoments.lean`, `Lemmas/Container.lean`, `Lemmas/C12Review.lean`, `Lemmas/C12ReviewInj.lean`; definitions: `Model/Perm.lean`,
+`Model/Container.lean`.
+
+CLAUSE → THEOREM TABLE (review R3; clause text from properties.jsonl)
+
+A. "MetricFrame, the fairness metrics, the constraint moments, ExponentiatedGradient, GridSearch and ThresholdOptimizer
+   give identical results whether y, predictions, sample parameters and sensitive/control features arrive as lists,
+   numpy arrays, pandas Series or single-column DataFrames (or dicts of arrays for features), and whatever index labels
+   the pandas objects carry - rows are always paired by position, never by label."
+   A1 container MODEL (`Cont.run`: per argument kind × labels × payload → conversion → label-aligning placement):
+      every argument through a label-dropping conversion ⇒ the result is a function of the payloads only, for all kinds
+      and all labels                         | containers_irrelevant, containers_irrelevant_guarded (conversions and
+                                               arguments of equal number; `placeAll_truncates` = what the unguarded one
+                                               silently allows), positional_pairing, conv_drops_labels      | FULL (model)
+   A2 which conversion each argument of each entry point passes through
+                                             | lifted_sites_drop_labels (`decide` over the table generated from the source
+                                               on every run), lifted_sites_nonempty, raw_site_is_flagged (a `raw` row makes
+                                               that `decide` false), lifted_sites_cover, lifted_entry_irrelevant (table +
+                                               A1 composed: any arguments list of lifted sites ⇒ labels and kinds
+                                               irrelevant), validate_fresh, fresh_align_is_positional       | FULL for the
+                                               40 lifted (entry, argument, sink) rows
+   A3 necessity: what a raw Series does       | raw_series_is_label_sensitive, raw_place_dup_raises, raw_place_wf
+                                               (NaN exactly at positions without a label; the labelled value otherwise),
+                                               place_length_artefact (totalisation of the model outside well-formed
+                                               Series), wrong_length_raises / fresh_wrong_length_is_reindexed (the
+                                               branches `positional_pairing` excludes)                                                      | FULL (model;
+                                               the five witness placements replayed on pandas 3.0.6 by the review)
+   A4 that the lifted rows are ALL the paths on which an argument reaches a label-aligning operation, and pandas'
+      reindexing itself                       | —                                                           | CORRESPONDENCE-
+                                               ONLY (streams mf, fm, mom, cont of harness/props/c12.py; `cont.place` now
+                                               also with conversion `raw` against a real pandas column assignment)
+   A5 ExponentiatedGradient, GridSearch, ThresholdOptimizer (fit, predict, `_pmf_predict`)
+                                             | only through the rows of `_validate_and_reformat_input`, the moments'
+                                               `load_data` / `gamma`, `_reformat_data_into_dict`,
+                                               `InterpolatedThresholder._pmf_predict`                        | CORRESPONDENCE-
+                                               ONLY (streams eg, gs, redcf, to: every variant against the list run of the
+                                               same call and a Fraction oracle on the positional zip).  NOT in the lifted
+                                               table (lifter gaps): the bodies of `ExponentiatedGradient.fit/_pmf_predict`
+                                               (the F16b site), `GridSearch.fit/predict`, `ThresholdOptimizer.fit/predict`,
+                                               and the sinks `Moment.load_data: tags[_GROUP_ID] = sensitive_features`,
+                                               `UtilityParity.load_data: tags[_EVENT] = event` themselves (the table
+                                               records what the subclasses pass to `super().load_data`).
+B. "Jointly permuting all rows leaves metric results unchanged"
+   B1 MetricFrame.by_group / overall          | byGroup_perm, overall_perm (hypothesis `PermInv f`: pool_permInv proves it
+                                               for all 17 pool metrics — every metric the check's `mf` stream uses —,
+                                               byGroup_pool_perm), byGroup_index_perm / levels_perm / slice_perm (no
+                                               hypothesis), wf_perm (both sides are inside the modelled domain)   | FULL
+   B2 group_min / group_max / difference / ratio | ofFrame_perm, aggregate_perm                                 | FULL
+   B3 the six named fairness metrics          | fairness_perm, dpDifference_perm, eoddsDifference_perm              | FULL
+   B4 moments (beyond the clause)             | moment_index_perm, moment_gamma_perm, moment_signedWeights_perm,
+                                               moment_bound_perm, errorRate_gamma_perm, errorRate_signedWeights_perm,
+                                               bgl_gamma_perm, bgl_signedWeights_perm                              | FULL
+   B5 ThresholdOptimizer                      | —                                           | CORRESPONDENCE-ONLY (to/perm);
+                                               EG / GridSearch: no permutation stream (GridSearch drops the last-SEEN group)
+C. "renaming group labels by a bijection only renames the corresponding index entries"
+   C1 by_group / overall                      | rename_equivariant_on (hypothesis `Perm.InjOnObserved σs rows`: column by
+                                               column injective on the labels that OCCUR = a bijection of the observed
+                                               labels onto their images; `List.Perm` = same MULTISET of (renamed tuple,
+                                               value) entries, arbitrary metric), rename_equivariant (+ rename_lookup;
+                                               the same for relabellings injective on ALL strings — the form the first
+                                               build had; its own examples used relabellings that are NOT of that kind),
+                                               rename_index_sorted + rename_determined (LIST form: the new table is the one
+                                               arrangement of those entries whose index is sorted by the NEW labels),
+                                               rename_monotone_eq (order-preserving relabelling ⇒ literally the mapped
+                                               list; false otherwise, see the `exSwap` example)                  | FULL
+   C2 necessity                               | non_injective_rename_merges (two labels mapped to one: the groups merge,
+                                               the entry count drops), rename_needs_wf (rows of the wrong width: `getD`
+                                               default of `Frame.col`)                                           | FULL
+   C3 aggregates, named metrics               | aggregate_rename_on, fairness_rename_on (observed-label form), frame_rename,
+                                               aggregate_rename, fairness_rename                                 | FULL
+   C4 moments, ThresholdOptimizer             | —                             | CORRESPONDENCE-ONLY (mom/relabel, to/relabel)
 -/
 import FairModel.Lemmas.Perm
 import FairModel.Lemmas.PermAggregate
 import FairModel.Lemmas.PermRename
 import FairModel.Lemmas.PermMoments
 import FairModel.Lemmas.Container
+import FairModel.Lemmas.C12Review
+import FairModel.Lemmas.C12ReviewInj
 
 namespace C12
 open Frame MetricPool Aggregate Perm
@@ -62,6 +134,12 @@ theorem levels_perm (ncf nsf : Nat) {rows rows' : List (Row α)} (hp : rows.Perm
 theorem slice_perm (k : Key) {rows rows' : List (Row α)} (hp : rows.Perm rows') :
     (slice (rowsOf Row.key k rows)).Perm (slice (rowsOf Row.key k rows')) :=
   Frame.slice_perm (rowsOf_perm Row.key k hp)
+
+/-- (review) the theorems above need no shape hypothesis, but the MODEL is faithful only on rows of the declared
+    width (MetricFrame rejects anything else; `Frame.col` would read `""` for a missing value): permuting keeps the
+    rows inside that domain -/
+theorem wf_perm (ncf nsf : Nat) {rows rows' : List (Row α)} (hp : rows.Perm rows') (h : WF ncf nsf rows) :
+    WF ncf nsf rows' := Frame.wf_perm hp h
 
 /-- the hypothesis of `byGroup_perm` holds for every metric of the pool: count, selection rate, the four
     confusion-matrix rates, mean prediction, accuracy, mean error, zero-one / absolute / squared error and the
@@ -161,6 +239,40 @@ theorem bgl_gamma_perm (l : Loss) {rows rows' : List LRow} {h h' : List Rat}
   intro g _
   exact bglGammaAt_joint_perm l hl hl' hp g
 
+/-! #### (review) the remaining moment observables the check's `mom` stream evaluates (ops `mom.bound`, `mom.err.sw`,
+`mom.bgl.sw`) had no theorem of this property -/
+
+open Moments in
+/-- `Moment.bound()` is indexed like `Moment.index`: same vector for permuted rows -/
+theorem moment_bound_perm (ev : Ev) (eps : Rat) {rows rows' : List Moments.Row} (hp : rows.Perm rows') :
+    bound ev rows eps = bound ev rows' eps := by
+  unfold bound
+  rw [index_perm ev hp]
+
+open Moments in
+/-- `ErrorRate.signed_weights` (with or without a multiplier) travel with their rows -/
+theorem errorRate_signedWeights_perm (fp fn : Rat) (lam : Option Rat) {ys ys' : List Rat} (hp : ys.Perm ys') :
+    (ys.zip (errWeights fp fn ys lam)).Perm (ys'.zip (errWeights fp fn ys' lam)) := by
+  cases lam <;> simp only [errWeights, zip_map_self] <;> exact hp.map _
+
+open Moments in
+/-- `BoundedGroupLoss.signed_weights(lambda)` travel with their rows (the group frequencies and the index do not
+    depend on the row order) -/
+theorem bgl_signedWeights_perm (lam : Option (List Rat)) {rows rows' : List LRow} (hp : rows.Perm rows') :
+    (rows.zip (bglSignedWeights rows lam)).Perm (rows'.zip (bglSignedWeights rows' lam)) := by
+  cases lam with
+  | none => simp only [bglSignedWeights, zip_map_self]; exact hp.map _
+  | some lv =>
+    have h : bglSignedWeights rows' (some lv) =
+        rows'.map (fun r => MomentsSrc.bglAdjust (lookup (bglIndex rows) lv r.g) (probG rows r.g)) := by
+      simp only [bglSignedWeights]
+      apply List.map_congr_left
+      intro r _
+      rw [bglIndex_perm hp, probG_perm hp]
+    rw [h]
+    simp only [bglSignedWeights, zip_map_self]
+    exact hp.map _
+
 /-! ### (4) relabelling the feature values -/
 
 /-- Relabel column `j` of the features by an injective `σs j` (control columns are numbered first).  The
@@ -251,6 +363,101 @@ theorem fairness_rename (nsf : Nat) (σs : Nat → Level → Level) (hinj : ∀ 
     fun mt m => congrArg scalarOf (aggregate_rename 0 nsf (eval mt) σs hinj (fun j hj => absurd hj (by omega)) rows hwf m .coerce).2.2.2
   simp only [allFair, dpDifference, dpRatio, eoppDifference, eoppRatio, eoddsDifference, eoddsRatio, hd, hr]
 
+/-! #### (review) clause C at FULL strength: a bijection of the OBSERVED labels
+
+`rename_equivariant` and its corollaries ask for `Function.Injective (σs j)` on ALL strings.  The relabelling of a
+data set is a bijection of the labels that occur in it (a ↦ z, b ↦ c; such a map is usually NOT injective on all
+strings: it also sends z to z).  `Perm.InjOnObserved σs rows`: column by column, `σs j` is injective on the labels
+occurring in column `j` of `rows`.  That is all the theorems need (`Perm.exists_injective_agreeing`: such a family
+agrees on the observed labels with one that is injective everywhere, built from label swaps). -/
+
+theorem rename_equivariant_on (nanv : β) (ncf nsf : Nat) (f : List α → β) (σs : Nat → Level → Level)
+    (rows : List (Row α)) (hwf : WF ncf nsf rows) (hinj : InjOnObserved σs rows) :
+    (byGroup nanv ncf nsf f (rows.map (renCols σs))).Perm
+      ((byGroup nanv ncf nsf f rows).map (fun e => (mapCols σs e.1, e.2))) ∧
+    (overall nanv ncf f (rows.map (renCols σs))).Perm
+      ((overall nanv ncf f rows).map (fun e => (mapCols σs e.1, e.2))) := by
+  obtain ⟨σs', hinj', hag⟩ := exists_injective_agreeing σs rows hinj
+  have hb : (byGroup nanv ncf nsf f rows).map (fun e => (mapCols σs e.1, e.2)) =
+      (byGroup nanv ncf nsf f rows).map (fun e => (mapCols σs' e.1, e.2)) :=
+    map_entries_congr_on nanv Row.key (ncf + nsf) f rows
+      (fun r hr => by simp [Row.key, (hwf r hr).1, (hwf r hr).2]) (fun _ _ _ _ => rfl) σs σs' hag
+  have ho : (overall nanv ncf f rows).map (fun e => (mapCols σs e.1, e.2)) =
+      (overall nanv ncf f rows).map (fun e => (mapCols σs' e.1, e.2)) :=
+    map_entries_congr_on nanv Row.ckey ncf f rows (fun r hr => by simp [Row.ckey, (hwf r hr).1])
+      (fun r hr j hj => by
+        simp only [Row.ckey, Row.key, List.getD_eq_getElem?_getD]
+        rw [List.getElem?_append_left (by rw [(hwf r hr).1]; exact hj)]) σs σs' hag
+  rw [map_renCols_congr_on σs σs' rows hag, hb, ho]
+  exact rename_equivariant nanv ncf nsf f σs' hinj' rows hwf
+
+/-- `aggregate_rename` for a bijection of the observed labels that keeps the observed control labels -/
+theorem aggregate_rename_on (ncf nsf : Nat) (f : List α → Cell) (σs : Nat → Level → Level)
+    (rows : List (Row α)) (hwf : WF ncf nsf rows) (hinj : InjOnObserved σs rows)
+    (hid : ∀ j, j < ncf → ∀ r ∈ rows, σs j (r.key.getD j "") = r.key.getD j "") (m : Method) (e : Errors) :
+    groupMin e (ofFrame ncf nsf f (rows.map (renCols σs))) = groupMin e (ofFrame ncf nsf f rows) ∧
+    groupMax e (ofFrame ncf nsf f (rows.map (renCols σs))) = groupMax e (ofFrame ncf nsf f rows) ∧
+    difference m e (ofFrame ncf nsf f (rows.map (renCols σs))) = difference m e (ofFrame ncf nsf f rows) ∧
+    ratio m e (ofFrame ncf nsf f (rows.map (renCols σs))) = ratio m e (ofFrame ncf nsf f rows) := by
+  obtain ⟨σs', hinj', hag⟩ := exists_injective_agreeing σs rows hinj
+  have hinj'' : ∀ j, Function.Injective (fun s => if j < ncf then s else σs' j s) := by
+    intro j
+    by_cases h : j < ncf
+    · simp only [h, if_true]; exact Function.injective_id
+    · simp only [h, if_false]; exact hinj' j
+  have hid'' : ∀ j, j < ncf → (fun s => if j < ncf then s else σs' j s) = id := by
+    intro j h
+    funext s
+    simp [h]
+  have hag'' : ∀ j, ∀ r ∈ rows, (fun s => if j < ncf then s else σs' j s) (r.key.getD j "") = σs j (r.key.getD j "") := by
+    intro j r hr
+    by_cases h : j < ncf
+    · simp only [h, if_true]; exact (hid j h r hr).symm
+    · simp only [h, if_false]; exact hag j r hr
+  rw [map_renCols_congr_on σs (fun j s => if j < ncf then s else σs' j s) rows hag'']
+  exact aggregate_rename ncf nsf f _ hinj'' hid'' rows hwf m e
+
+/-- the six named fairness metrics under a bijection of the observed group labels -/
+theorem fairness_rename_on (nsf : Nat) (σs : Nat → Level → Level) (rows : List (Row Dat)) (hwf : WF 0 nsf rows)
+    (hinj : InjOnObserved σs rows) : allFair nsf (rows.map (renCols σs)) = allFair nsf rows := by
+  obtain ⟨σs', hinj', hag⟩ := exists_injective_agreeing σs rows hinj
+  rw [map_renCols_congr_on σs σs' rows hag]
+  exact fairness_rename nsf σs' hinj' rows hwf
+
+/-! #### (review) the ORDER of the relabelled index -/
+
+/-- the index of the relabelled table is strictly sorted — by the NEW labels -/
+theorem rename_index_sorted (nanv : β) (ncf nsf : Nat) (f : List α → β) (σs : Nat → Level → Level)
+    (rows : List (Row α)) :
+    ((byGroup nanv ncf nsf f (rows.map (renCols σs))).map (·.1)).Pairwise (· < ·) :=
+  applyFunctions_index_sorted nanv Row.key _ f _
+
+/-- LIST form of `rename_equivariant`: the table of the relabelled rows is THE arrangement of the renamed old entries
+    whose index is strictly sorted (there is exactly one). -/
+theorem rename_determined (nanv : β) (ncf nsf : Nat) (f : List α → β) (σs : Nat → Level → Level)
+    (hinj : ∀ j, Function.Injective (σs j)) (rows : List (Row α)) (hwf : WF ncf nsf rows) (l : List (Key × β))
+    (hl : l.Perm ((byGroup nanv ncf nsf f rows).map (fun e => (mapCols σs e.1, e.2))))
+    (hs : (l.map (·.1)).Pairwise (· < ·)) :
+    byGroup nanv ncf nsf f (rows.map (renCols σs)) = l :=
+  eq_of_perm_of_sorted ((rename_equivariant nanv ncf nsf f σs hinj rows hwf).1.trans hl.symm)
+    (rename_index_sorted nanv ncf nsf f σs rows) hs
+
+/-- an ORDER-PRESERVING relabelling (every column strictly increasing) renames the index entries in place: the new
+    table is literally the old list with renamed tuples.  (For a relabelling that is not order preserving this list
+    equality is false — see the `exSwap` example below — and `rename_equivariant` / `rename_determined` are the
+    statement.) -/
+theorem rename_monotone_eq (nanv : β) (ncf nsf : Nat) (f : List α → β) (σs : Nat → Level → Level)
+    (hmono : ∀ j a b, a < b → σs j a < σs j b) (rows : List (Row α)) (hwf : WF ncf nsf rows) :
+    byGroup nanv ncf nsf f (rows.map (renCols σs)) =
+      (byGroup nanv ncf nsf f rows).map (fun e => (mapCols σs e.1, e.2)) := by
+  apply rename_determined nanv ncf nsf f σs (fun j => injective_of_strictMono _ (hmono j)) rows hwf _ (List.Perm.refl _)
+  have hs := applyFunctions_index_sorted nanv Row.key (ncf + nsf) f rows
+  have : ((byGroup nanv ncf nsf f rows).map (fun e => (mapCols σs e.1, e.2))).map (·.1) =
+      ((byGroup nanv ncf nsf f rows).map (·.1)).map (mapCols σs) := by
+    simp [List.map_map, Function.comp_def]
+  rw [this]
+  exact List.Pairwise.map _ (fun a b h => mapCols_lt σs hmono h) hs
+
 /-! ### Non-vacuity -/
 
 def exRows : List (Row Dat) :=
@@ -263,7 +470,10 @@ def exRows' : List (Row Dat) :=
    ⟨⟨1, 0, 3, 0⟩, ["m"], ["a"]⟩, ⟨⟨0, 1, 1, 0⟩, ["k"], ["a"]⟩]
 
 example : exRows.Perm exRows' := by decide +kernel
+/-- (review) … a genuinely non-identity permutation of 5 rows in 2 × 2 groups, weights not all equal -/
+example : exRows ≠ exRows' := by decide +kernel
 example : WF 1 1 exRows := by decide
+example : WF 1 1 exRows' := wf_perm 1 1 (by decide +kernel : exRows.Perm exRows') (by decide)
 example : byGroup Cell.nan 1 1 (eval .selrate) exRows =
     [(["k", "a"], .ofRat 1), (["k", "b"], .ofRat (2/3)), (["m", "a"], .ofRat 0), (["m", "b"], .ofRat 1)] := by
   decide +kernel
@@ -275,7 +485,19 @@ example : byGroup Cell.nan 1 1 (eval .selrate) exRows' = byGroup Cell.nan 1 1 (e
 example : byGroup (0 : Rat) 1 1 (fun l => (l.map (·.p0)).headD 0) exRows ≠
     byGroup (0 : Rat) 1 1 (fun l => (l.map (·.p0)).headD 0) exRows' := by decide +kernel
 
-/-- relabelling a ↦ z, b ↦ c in the sensitive column, control labels kept: the index order changes -/
+/-- (review) all hypotheses of `aggregate_perm` at once on the permuted example; two strata, non-trivial values -/
+example : difference .between .coerce (ofFrame 1 1 (eval .selrate) exRows') = some [(["k"], .fin (1/3)), (["m"], .fin 1)] ∧
+    groupMin .coerce (ofFrame 1 1 (eval .selrate) exRows') = some [(["k"], .fin (2/3)), (["m"], .fin 0)] := by
+  decide +kernel
+example : difference .between .coerce (ofFrame 1 1 (eval .selrate) exRows) =
+    difference .between .coerce (ofFrame 1 1 (eval .selrate) exRows') :=
+  (aggregate_perm 1 1 (eval .selrate) (pool_permInv .selrate) (by decide +kernel : exRows.Perm exRows')
+    .between .coerce).2.2.1
+
+/-- relabelling a ↦ z, b ↦ c in the sensitive column, control labels kept: the index order changes.
+    (review) CAUTION: `exSigma 1` is a bijection of the OBSERVED labels {a, b} onto {z, c} but NOT injective on all
+    labels (`a` and `z` both go to `z`), so it does not meet the hypothesis `hinj` of the theorems of section (4);
+    `exSwap` below does. -/
 def exSigma : Nat → Level → Level := fun j s => if j = 0 then s else if s = "a" then "z" else if s = "b" then "c" else s
 
 example : byGroup Cell.nan 1 1 (eval .selrate) (exRows.map (renCols exSigma)) =
@@ -283,6 +505,86 @@ example : byGroup Cell.nan 1 1 (eval .selrate) (exRows.map (renCols exSigma)) =
   decide +kernel
 example : difference .between .coerce (ofFrame 1 1 (eval .selrate) (exRows.map (renCols exSigma))) =
     some [(["k"], .fin (1/3)), (["m"], .fin 1)] := by decide +kernel
+example : ¬ Function.Injective (exSigma 1) :=
+  fun h => absurd (h (by decide +kernel : exSigma 1 "a" = exSigma 1 "z")) (by decide +kernel)
+
+/-- … but it IS a bijection of the observed labels, which is what `rename_equivariant_on` asks for -/
+theorem exSigma_injOnObserved : InjOnObserved exSigma exRows :=
+  InjOnObserved.of_width (ncf := 1) (nsf := 1) (by decide) (by decide +kernel)
+
+example : (byGroup Cell.nan 1 1 (eval .selrate) (exRows.map (renCols exSigma))).Perm
+    ((byGroup Cell.nan 1 1 (eval .selrate) exRows).map (fun e => (mapCols exSigma e.1, e.2))) :=
+  (rename_equivariant_on Cell.nan 1 1 (eval .selrate) exSigma exRows (by decide) exSigma_injOnObserved).1
+example : difference .between .coerce (ofFrame 1 1 (eval .selrate) (exRows.map (renCols exSigma))) =
+    difference .between .coerce (ofFrame 1 1 (eval .selrate) exRows) :=
+  (aggregate_rename_on 1 1 (eval .selrate) exSigma exRows (by decide) exSigma_injOnObserved
+    (by decide +kernel) .between .coerce).2.2.1
+/-- the merging relabelling of `non_injective_rename_merges` is (of course) not a bijection of the observed labels -/
+example : ¬ InjOnObserved (fun j s => if j = 0 then s else "z") exRows :=
+  fun h => absurd (h 1 ⟨⟨1, 1, 2, 0⟩, ["k"], ["b"]⟩ (by decide +kernel) ⟨⟨0, 1, 1, 0⟩, ["k"], ["a"]⟩ (by decide +kernel)
+    (by decide +kernel)) (by decide +kernel)
+
+/-- (review) a relabelling that IS injective on all labels: exchange a ↔ z in the sensitive column (so that the
+    order of the groups a < b becomes b < z), control labels kept -/
+def exSwap : Nat → Level → Level := fun j => if j = 0 then id else swapLevels "a" "z"
+
+theorem exSwap_injective : ∀ j, Function.Injective (exSwap j) := by
+  intro j
+  unfold exSwap
+  split
+  · exact Function.injective_id
+  · exact swapLevels_injective _ _
+
+theorem exSwap_keeps_control : ∀ j, j < 1 → exSwap j = id := by
+  intro j hj
+  have : j = 0 := by omega
+  subst this
+  rfl
+
+/-- all hypotheses of `rename_equivariant` / `frame_rename` / `aggregate_rename` at once (injective, control labels
+    kept, well-formed rows; 2 strata × 2 groups), and the interesting branch: the index ORDER changes -/
+example : (byGroup Cell.nan 1 1 (eval .selrate) (exRows.map (renCols exSwap))).Perm
+    ((byGroup Cell.nan 1 1 (eval .selrate) exRows).map (fun e => (mapCols exSwap e.1, e.2))) :=
+  (rename_equivariant Cell.nan 1 1 (eval .selrate) exSwap exSwap_injective exRows (by decide)).1
+example : byGroup Cell.nan 1 1 (eval .selrate) (exRows.map (renCols exSwap)) =
+    [(["k", "b"], .ofRat (2/3)), (["k", "z"], .ofRat 1), (["m", "b"], .ofRat 1), (["m", "z"], .ofRat 0)] := by
+  decide +kernel
+/-- … so the list equality of `rename_monotone_eq` is FALSE for a relabelling that is not order preserving -/
+example : byGroup Cell.nan 1 1 (eval .selrate) (exRows.map (renCols exSwap)) ≠
+    (byGroup Cell.nan 1 1 (eval .selrate) exRows).map (fun e => (mapCols exSwap e.1, e.2)) := by decide +kernel
+example : difference .between .coerce (ofFrame 1 1 (eval .selrate) (exRows.map (renCols exSwap))) =
+    difference .between .coerce (ofFrame 1 1 (eval .selrate) exRows) :=
+  (aggregate_rename 1 1 (eval .selrate) exSwap exSwap_injective exSwap_keeps_control exRows (by decide)
+    .between .coerce).2.2.1
+
+/-- NECESSITY of injectivity: map both sensitive labels to "z" — the two groups of every stratum MERGE (4 entries
+    become 2, with the pooled rates), so the result is not a renaming of the old entries -/
+def exMerge : Nat → Level → Level := fun j s => if j = 0 then s else "z"
+
+theorem non_injective_rename_merges :
+    byGroup Cell.nan 1 1 (eval .selrate) (exRows.map (renCols exMerge)) =
+      [(["k", "z"], .ofRat (3/4)), (["m", "z"], .ofRat (1/4))] ∧
+    ¬ (byGroup Cell.nan 1 1 (eval .selrate) (exRows.map (renCols exMerge))).Perm
+        ((byGroup Cell.nan 1 1 (eval .selrate) exRows).map (fun e => (mapCols exMerge e.1, e.2))) := by
+  refine ⟨by decide +kernel, fun h => ?_⟩
+  have := h.length_eq
+  revert this
+  decide +kernel
+
+/-- NECESSITY of `WF`: a row without feature values in a frame declared with two sensitive columns — `Frame.col` reads
+    the default "" for the missing values, and relabelling "" then changes the index on one side only.  (Real
+    MetricFrame never gets there: it raises on feature arrays of the wrong shape.) -/
+theorem rename_needs_wf :
+    ¬ (byGroup (0 : Rat) 0 2 (fun l => (l.length : Rat))
+          (([⟨(), [], []⟩] : List (Row Unit)).map (renCols (fun _ => swapLevels "" "q")))).Perm
+      ((byGroup (0 : Rat) 0 2 (fun l => (l.length : Rat)) ([⟨(), [], []⟩] : List (Row Unit))).map
+        (fun e => (mapCols (fun _ => swapLevels "" "q") e.1, e.2))) := by decide +kernel
+
+/-- an order-preserving relabelling (prefix every label with "g"): hypothesis of `rename_monotone_eq` … -/
+example : byGroup Cell.nan 1 1 (eval .selrate) (exRows.map (renCols (fun _ s => "g" ++ s))) =
+    [(["gk", "ga"], .ofRat 1), (["gk", "gb"], .ofRat (2/3)), (["gm", "ga"], .ofRat 0), (["gm", "gb"], .ofRat 1)] := by
+  decide +kernel
+
 /-- a bijection on the group labels of `exFair` that reverses their order -/
 def exSigma' : Nat → Level → Level := fun _ s => if s = "a" then "z" else if s = "c" then "A" else s
 
@@ -299,6 +601,13 @@ example : allFair 1 exFair =
      some (.fin (5/12)), some (.fin (7/12)), some (.fin (2/7)), some (.fin (7/10)), some (.fin (3/5)), some (.fin 0),
      some (.fin (31/70)), some (.fin (7/20))] := by decide +kernel
 example : allFair 1 (exFair.reverse.map (renCols exSigma')) = allFair 1 exFair := by decide +kernel
+/-- (review) `exSigma'` is again only a bijection of the observed labels; with an injective one the hypotheses of
+    `fairness_rename` hold jointly (three groups, weighted rows, all 16 values finite and distinct from 0/1 mostly) -/
+example : allFair 1 (exFair.map (renCols exSigma')) = allFair 1 exFair :=
+  fairness_rename_on 1 exSigma' exFair (by decide)
+    (InjOnObserved.of_width (ncf := 0) (nsf := 1) (by decide) (by decide +kernel))
+example : allFair 1 (exFair.map (renCols (fun _ => swapLevels "a" "z"))) = allFair 1 exFair :=
+  fairness_rename 1 _ (fun _ => swapLevels_injective _ _) exFair (by decide)
 
 def exMom : List Moments.Row := [⟨1, "a", none⟩, ⟨0, "b", none⟩, ⟨1, "b", none⟩, ⟨0, "a", none⟩]
 def exMom' : List Moments.Row := [⟨0, "a", none⟩, ⟨1, "b", none⟩, ⟨1, "a", none⟩, ⟨0, "b", none⟩]
@@ -308,6 +617,31 @@ example : Moments.gamma (Moments.eventOf .eo) exMom 1 Moments.defaultUtil [1, 0,
     Moments.gamma (Moments.eventOf .eo) exMom' 1 Moments.defaultUtil [1, 1/2, 1, 0] := by decide +kernel
 example : Moments.gamma (Moments.eventOf .eo) exMom 1 Moments.defaultUtil [1, 0, 1/2, 1] =
     [1/2, -1/2, 1/4, -1/4, -1/2, 1/2, -1/4, 1/4] := by decide +kernel
+
+/-- (review) hypotheses of `moment_gamma_perm` jointly: equal lengths, joint permutation, 2 groups × 2 events -/
+example : exMom.length = ([1, 0, 1/2, 1] : List Rat).length ∧ exMom'.length = ([1, 1/2, 1, 0] : List Rat).length ∧
+    exMom ≠ exMom' := by decide +kernel
+/-- `moment_signedWeights_perm`: the weights are not constant, and each travels with its row -/
+example : Moments.signedWeights (Moments.eventOf .eo) exMom 1 Moments.defaultUtil [1, 0, 2, 0, 0, 1, 0, 0] = [-4, 4, 4, -4] ∧
+    Moments.signedWeights (Moments.eventOf .eo) exMom' 1 Moments.defaultUtil [1, 0, 2, 0, 0, 1, 0, 0] = [-4, 4, -4, 4] := by
+  decide +kernel
+example : (exMom.zip (Moments.signedWeights (Moments.eventOf .eo) exMom 1 Moments.defaultUtil [1, 0, 2, 0, 0, 1, 0, 0])).Perm
+    (exMom'.zip (Moments.signedWeights (Moments.eventOf .eo) exMom' 1 Moments.defaultUtil [1, 0, 2, 0, 0, 1, 0, 0])) :=
+  (moment_signedWeights_perm _ 1 _ _ (by decide +kernel : exMom.Perm exMom')).2
+/-- `errorRate_gamma_perm` (costs fp = 1, fn = 2; a fractional prediction) and `bgl_gamma_perm` (square loss, 2 groups) -/
+example : (([1, 0, 1, 0] : List Rat).zip [1, 1, 0, 1/2]).Perm (([0, 1, 0, 1] : List Rat).zip [1, 1, 1/2, 0]) ∧
+    Moments.errGamma 1 2 [1, 0, 1, 0] [1, 1, 0, 1/2] = 7/8 ∧ Moments.errGamma 1 2 [0, 1, 0, 1] [1, 1, 1/2, 0] = 7/8 := by
+  decide +kernel
+example : (([⟨1, "a"⟩, ⟨0, "b"⟩, ⟨1/2, "a"⟩] : List Moments.LRow).zip ([1, 1/2, 0] : List Rat)).Perm
+      (([⟨1/2, "a"⟩, ⟨1, "a"⟩, ⟨0, "b"⟩] : List Moments.LRow).zip ([0, 1, 1/2] : List Rat)) ∧
+    Moments.bglGamma (.square 0 1) [⟨1, "a"⟩, ⟨0, "b"⟩, ⟨1/2, "a"⟩] [1, 1/2, 0] = [1/8, 1/4] ∧
+    Moments.bglGamma (.square 0 1) [⟨1/2, "a"⟩, ⟨1, "a"⟩, ⟨0, "b"⟩] [0, 1, 1/2] = [1/8, 1/4] := by
+  decide +kernel
+
+/-- `bgl_signedWeights_perm`: weights λ_g / P[g] with two groups of different size — not constant -/
+example : Moments.bglSignedWeights [⟨1, "a"⟩, ⟨0, "b"⟩, ⟨1/2, "a"⟩] (some [1, 2]) = [3/2, 6, 3/2] ∧
+    Moments.bglSignedWeights [⟨0, "b"⟩, ⟨1/2, "a"⟩, ⟨1, "a"⟩] (some [1, 2]) = [6, 3/2, 3/2] ∧
+    Moments.errWeights 1 2 [1, 0, 1, 0] (some (3/4)) = [3/2, -3/4, 3/2, -3/4] := by decide +kernel
 
 /-! ### (5) containers and index labels -/
 
@@ -327,6 +661,23 @@ theorem containers_irrelevant {β : Type} (n : Nat) (convs : List Conv) (f : Lis
   unfold run
   rw [placeAll_congr n convs args args' hpay h h']
 
+/-- (review) The statement above has no hypothesis tying the NUMBER of conversions to the number of arguments:
+    `Cont.placeAll` walks the two lists like `zip` and silently ignores what is left over, so for a shorter `convs` it
+    says "the surplus arguments are irrelevant" for the wrong reason (they are never placed).  The intended reading,
+    one conversion per argument: -/
+theorem containers_irrelevant_guarded {β : Type} (n : Nat) (convs : List Conv) (f : List (List (Option Rat)) → β)
+    (args args' : List Arg) (_hl : convs.length = args.length)
+    (hpay : List.Forall₂ (fun a a' => a.payload = a'.payload) args args')
+    (h : ∀ p ∈ convs.zip args, dropsLabels p.1 p.2 = true)
+    (h' : ∀ p ∈ convs.zip args', dropsLabels p.1 p.2 = true) :
+    run n convs f args = run n convs f args' ∧ convs.length = args'.length :=
+  ⟨containers_irrelevant n convs f args args' hpay h h', by rw [_hl]; exact hpay.length_eq⟩
+
+/-- the truncation artefact itself: a surplus raw Series with shuffled labels, or a surplus conversion, is dropped -/
+theorem placeAll_truncates :
+    placeAll 2 [] [⟨.series, [1, 0], [10, 20]⟩] = .ok [] ∧ placeAll 2 [.raw, .raw] [⟨.list, [], [10, 20]⟩] = .ok [[some 10, some 20]] := by
+  decide +kernel
+
 /-- … and the rows are paired BY POSITION: row `i` of the frame holds entry `i` of every payload. -/
 theorem positional_pairing {β : Type} (n : Nat) (convs : List Conv) (f : List (List (Option Rat)) → β)
     (args : List Arg) (hl : convs.length = args.length)
@@ -345,6 +696,29 @@ theorem conv_drops_labels (c : Conv) (a : Arg) (hc : c ≠ .raw) (hk : c = .kind
 /-- TIE: every site lifted from the source passes its argument through a label-dropping conversion (finite table
     regenerated from the source on every run; a `raw` site makes this fail). -/
 theorem lifted_sites_drop_labels : ∀ s ∈ ContainerSites.sites, s.conv ≠ Conv.raw := by decide
+
+/-- (review) the table the `decide` ranges over is not empty … -/
+theorem lifted_sites_nonempty : 0 < ContainerSites.sites.length := by decide
+
+/-- … and a single `raw` row makes the statement of `lifted_sites_drop_labels` FALSE (so its `decide` fails): this is
+    what the lifter emits for an argument that reaches its sink unconverted (seeded changes C01a / C04a / C12a) -/
+theorem raw_site_is_flagged (e a k : String) :
+    ¬ (∀ s ∈ (⟨e, a, k, Conv.raw⟩ : ContainerSites.Site) :: ContainerSites.sites, s.conv ≠ Conv.raw) :=
+  fun h => h _ (List.mem_cons_self ..) rfl
+
+/-- (review) TABLE and MODEL composed — `lifted_sites_drop_labels` and `containers_irrelevant` were not connected:
+    take ANY list `ss` of rows of the lifted table as the conversions of the arguments of an entry point; then
+    container kinds and index labels of the arguments are irrelevant.  The only side condition is the `isinstance`
+    guard of the rows of class `kind` (they are reached by lists / ndarrays only). -/
+theorem lifted_entry_irrelevant {β : Type} (n : Nat) (ss : List ContainerSites.Site)
+    (hss : ∀ s ∈ ss, s ∈ ContainerSites.sites) (f : List (List (Option Rat)) → β) (args args' : List Arg)
+    (hpay : List.Forall₂ (fun a a' => a.payload = a'.payload) args args')
+    (hk : ∀ p ∈ ss.zip args, p.1.conv = Conv.kind → p.2.kind.labelled = false)
+    (hk' : ∀ p ∈ ss.zip args', p.1.conv = Conv.kind → p.2.kind.labelled = false) :
+    run n (ss.map (·.conv)) f args = run n (ss.map (·.conv)) f args' :=
+  containers_irrelevant n _ f args args' hpay
+    (dropsLabels_sites ss args (fun s hs => lifted_sites_drop_labels s (hss s hs)) hk)
+    (dropsLabels_sites ss args' (fun s hs => lifted_sites_drop_labels s (hss s hs)) hk')
 
 /-- the table is not empty and covers the anchored entry points -/
 theorem lifted_sites_cover :
@@ -374,12 +748,74 @@ theorem raw_series_is_label_sensitive :
     placeAll 2 [.raw] [⟨.series, [0, 0], [10, 20]⟩] = .error .dupLabels ∧
     placeAll 2 [.raw] [⟨.list, [1, 0], [10, 20]⟩] = .ok [[some 10, some 20]] := by decide +kernel
 
+/-- (review) repeated labels on a raw Series / DataFrame ALWAYS raise (pandas: `ValueError: cannot reindex on an axis
+    with duplicate labels`), whatever the values and the frame length -/
+theorem raw_place_dup_raises (n : Nat) (k : Kind) (hk : k.labelled = true) (labels : List Int) (vals : List Rat)
+    (h : ¬ labels.Nodup) : placeAll n [.raw] [⟨k, labels, vals⟩] = .error .dupLabels := by
+  simp [placeAll, convert, hk, place_dup n labels vals h]
+
+/-- (review) a raw WELL-FORMED Series (as many labels as values, no repeats): row `i` of the frame is NaN exactly when
+    no entry is labelled `i`, and the entry labelled `labels[p]` is the value at position `p` — pairing by label. -/
+theorem raw_place_wf (n : Nat) (labels : List Int) (vals : List Rat) (hnd : labels.Nodup)
+    (hl : labels.length = vals.length) :
+    place n (convert .raw ⟨.series, labels, vals⟩) =
+      .ok ((List.range n).map (fun (i : Nat) => vals[labels.idxOf (i : Int)]?)) ∧
+    (∀ i : Int, vals[labels.idxOf i]? = none ↔ i ∉ labels) ∧
+    (∀ p (hp : p < labels.length), vals[labels.idxOf labels[p]]? = vals[p]?) :=
+  ⟨place_labelled_ok n labels vals hnd, labelled_entry_none_iff labels vals hl, labelled_entry_some labels vals hnd⟩
+
+/-- (review) the error branch `positional_pairing` excludes by `hn`: a converted (label-free) column of the wrong
+    length does not get paired with anything — it raises (pandas: `Length of values does not match length of index`;
+    MetricFrame / `check_consistent_length` reject it even earlier) -/
+theorem wrong_length_raises (n : Nat) (c : Conv) (a : Arg) (h : dropsLabels c a = true) (hc : c ≠ .fresh)
+    (hl : a.payload.length ≠ n) : placeAll n [c] [a] = .error .length := by
+  have e := Cont.convert_eq_convertP c a h
+  cases c <;> simp_all [placeAll, convertP, place]
+
+/-- … whereas a FRESH Series (the output of `_validate_and_reformat_input`) of another length is re-indexed like any
+    labelled object: cut off, or padded with NaN — which is why `Moment.load_data` relies on the length check made by
+    `_validate_and_reformat_input` before -/
+theorem fresh_wrong_length_is_reindexed :
+    place 2 (convert .fresh ⟨.list, [], [1, 2, 3]⟩) = .ok [some 1, some 2] ∧
+    place 3 (convert .fresh ⟨.list, [], [1, 2]⟩) = .ok [some 1, some 2, none] := by decide +kernel
+
+/-- TOTALISATION of `Cont.place` outside well-formed Series: with FEWER labels than values a missing label reads the
+    value just behind the labels instead of NaN (`idxOf` of an absent label is the length of the label list).  No pandas
+    object has that shape; the harness always sends as many labels as values for Series / DataFrame arguments and none
+    otherwise; `raw_place_wf` is the guarded statement. -/
+theorem place_length_artefact : place 1 (.labelled [5] [10, 20]) = .ok [some 20] := by decide +kernel
+
 /-! non-vacuity: three arguments with different kinds and labels, all through label-dropping conversions -/
 example : placeAll 3 [.asarray, .listOf, .values]
     [⟨.series, [2, 0, 1], [1, 0, 1]⟩, ⟨.frame, [7, 7, 7], [5, 6, 7]⟩, ⟨.ndarray, [], [1/2, 1/4, 1/8]⟩] =
     .ok [[some 1, some 0, some 1], [some 5, some 6, some 7], [some (1/2), some (1/4), some (1/8)]] := by
   decide +kernel
 example : dropsLabels .kind ⟨.list, [], [1]⟩ = true ∧ dropsLabels .kind ⟨.series, [3], [1]⟩ = false := by decide
+
+/-- (review) all hypotheses of `containers_irrelevant(_guarded)` at once: same payloads, different kinds and labels
+    (shuffled / duplicated / offset / none), one conversion per argument — and the frame they produce -/
+example : run 3 [.asarray, .listOf, .fresh] id
+      [⟨.series, [2, 0, 1], [1, 0, 1]⟩, ⟨.frame, [7, 7, 7], [5, 6, 7]⟩, ⟨.series, [1, 2, 3], [1/2, 1/4, 1/8]⟩] =
+    run 3 [.asarray, .listOf, .fresh] id
+      [⟨.list, [], [1, 0, 1]⟩, ⟨.ndarray, [], [5, 6, 7]⟩, ⟨.frame, [0, 0, 0], [1/2, 1/4, 1/8]⟩] :=
+  (containers_irrelevant_guarded 3 _ id _ _ rfl
+    (.cons rfl (.cons rfl (.cons rfl .nil))) (by decide) (by decide)).1
+example : run 3 [.asarray, .listOf, .fresh] id
+      [⟨.series, [2, 0, 1], [1, 0, 1]⟩, ⟨.frame, [7, 7, 7], [5, 6, 7]⟩, ⟨.series, [1, 2, 3], [1/2, 1/4, 1/8]⟩] =
+    .ok [[some 1, some 0, some 1], [some 5, some 6, some 7], [some (1/2), some (1/4), some (1/8)]] := by decide +kernel
+
+/-- `lifted_entry_irrelevant` on rows of the CURRENT table: the rows of `_validate_and_reformat_input`, fed with a
+    shuffled Series, a DataFrame with repeated labels and an offset Series vs. plain lists of the same payloads -/
+def exValSites : List ContainerSites.Site :=
+  ContainerSites.sites.filter (fun s => s.entry == "_validate_and_reformat_input")
+
+example : 3 ≤ exValSites.length := by decide +kernel
+example : run 3 (exValSites.map (·.conv)) id
+      [⟨.series, [2, 0, 1], [1, 0, 1]⟩, ⟨.frame, [7, 7, 7], [5, 6, 7]⟩, ⟨.series, [1, 2, 3], [1/2, 1/4, 1/8]⟩] =
+    run 3 (exValSites.map (·.conv)) id
+      [⟨.list, [], [1, 0, 1]⟩, ⟨.list, [], [5, 6, 7]⟩, ⟨.list, [], [1/2, 1/4, 1/8]⟩] :=
+  lifted_entry_irrelevant 3 exValSites (fun _ hs => (List.mem_filter.mp hs).1) id _ _
+    (.cons rfl (.cons rfl (.cons rfl .nil))) (by decide +kernel) (by decide +kernel)
 
 end containers
 
